@@ -283,6 +283,21 @@ def gen_cases(run):
                        "recipe": {"src": src, "op": None}}
 
 
+    # cross-format AND damaged: a container of the other family, cut short or overwritten in places, handed to this extractor (a download that
+    # broke off, saved under the wrong extension): the OLE2 readers behind the OOXML encryption probes and the ZIP readers behind the
+    # legacy extractors see their own kind of broken input
+    ole_src = [s_ for k in ("doc", "xls", "ppt", "msg") for s_ in sources.get(k, [])[:5]]
+    zip_src = [s_ for k in ("docx", "xlsx", "odt") for s_ in sources.get(k, [])[:3]]
+    for targets, pool_src in ((("docx", "xlsx", "pptx", "odt"), ole_src), (("doc", "xls", "ppt", "msg"), zip_src)):
+        for kind in targets:
+            for src in pool_src:
+                for op in ("truncate", "truncate_tail", "head_only", "zero"):
+                    for _ in range(run.n(1, 4)):
+                        cid += 1
+                        yield {"id": cid, "kind": kind, "mode": rng.choice(["direct", "direct", "direct", "read_file", "cli"]), "native": False,
+                               "recipe": {"src": src, "op": op, "family": "byte", "mseed": rng.randrange(1 << 30), "other": None}}
+
+
 def judge(run, case, ob):
     kind, mode = case["kind"], case["mode"]
     rec = case["recipe"]
